@@ -110,8 +110,10 @@ def base_scenario(seed, index, ex="asyncio"):
         callers.append({"start": r.choice([0.0, 0.0, 0.001, 0.01]),
                         "ops": [mkop("s0", "a.test", {"body": r.choice([0, 200]),
                                                       "resp_len": 40, "consume": "all"})]})
-        if r.random() < 0.4:
-            callers.append({"start": 0.0,
+        # a second companion: two waiters inside one HTTP/2 connection (stream slots) or
+        # two queued requests for one HTTP/1.1 connection when the fault lands
+        if r.random() < 0.8:
+            callers.append({"start": r.choice([0.0, 0.0, 0.002]),
                             "ops": [mkop("s1", "a.test", {"body": 0, "resp_len": 10,
                                                           "consume": "all"})]})
     scn = {"seed": seed, "exec": ex, "sched": "fifo", "pool": pool, "net": net,
@@ -412,12 +414,14 @@ FAMS05 = [SweepFamily("C05", "sweep-async", 55, 550),
           SweepFamily("C05", "sweep-trio", 22, 220, ex="trio"),
           SweepFamily("C05", "sweep-threads", 22, 220, ex="threads"),
           SweepFamily("C05", "sweep-async-L2", 22, 220, seam="L2"),
-          SweepFamily("C05", "sweep-threads-L2", 11, 110, ex="threads", seam="L2")]
+          SweepFamily("C05", "sweep-threads-L2", 11, 110, ex="threads", seam="L2"),
+          SweepFamily("C05", "sweep-trio-L2", 11, 110, ex="trio", seam="L2")]
 FAMS06 = [SweepFamily("C06", "sweep-async", 55, 550),
           SweepFamily("C06", "sweep-trio", 22, 220, ex="trio"),
           SweepFamily("C06", "sweep-threads", 22, 220, ex="threads"),
           SweepFamily("C06", "sweep-async-L2", 22, 220, seam="L2"),
-          SweepFamily("C06", "sweep-threads-L2", 11, 110, ex="threads", seam="L2")]
+          SweepFamily("C06", "sweep-threads-L2", 11, 110, ex="threads", seam="L2"),
+          SweepFamily("C06", "sweep-trio-L2", 11, 110, ex="trio", seam="L2")]
 
 register("C05", {
     "level": "fault_enumeration",
